@@ -644,7 +644,7 @@ def check_case(case: Dict[str, Any], sc: Optional[Scenario] = None) -> Optional[
                 return fail("listing-wrong", f"{who} instance lists {ids} (len {n}), expected {want}", [ids, n], want)
         # the other files are byte-identical
         for name, b in sc.snapshot.items():
-            nm = sc.names[name]
+            nm = sc.names.get(name, ["other", name])
             if nm[0] == "doc" and nm[1] != TID and (not os.path.exists(os.path.join(sc.dir, name)) or sc.read(name) != b):
                 return fail("other-file-touched", f"file of {nm[1]!r} changed")
         if r["raised"] is None:
